@@ -1,0 +1,88 @@
+//go:build verif
+
+package unifier
+
+// Contracts for govc (see /verif/DESIGN.md). Comment-only file: contributes no code.
+
+// ---- C08: model-unification circuit breaker (state 0=closed 1=open 2=half-open)
+// cfgOK is the configuration precondition under which the automaton is well behaved; DefaultConfig
+// (the only producer in the tree) is proved to satisfy it.
+
+//@ spec func cfgOK(c CircuitBreakerConfig) bool = c.FailureThreshold >= 1 && c.SuccessThreshold >= 1 && c.SuccessThreshold <= c.HalfOpenRequests && c.OpenDuration >= 0
+
+//@ type CircuitBreaker
+//@   repinv self.state == 0 || self.state == 1 || self.state == 2
+//@   repinv cfgOK(self.config)
+//@   repinv self.failures >= 0 && self.successes >= 0 && self.halfOpenRequests >= 0
+//@   repinv self.state == 0 ==> self.successes == 0 && self.halfOpenRequests == 0
+//@   repinv self.state == 1 ==> self.successes == 0 && self.halfOpenRequests == 0
+//@   repinv self.state == 2 ==> self.failures == 0 && self.successes < self.config.SuccessThreshold
+
+//@ func DefaultConfig
+//@   property C08
+//@   ensures res.CircuitBreaker.Enabled && res.CircuitBreaker.FailureThreshold == 5 && res.CircuitBreaker.SuccessThreshold == 2 && res.CircuitBreaker.HalfOpenRequests == 3 && res.CircuitBreaker.OpenDuration == 60000000000
+//@   ensures cfgOK(res.CircuitBreaker)
+
+//@ func NewCircuitBreaker
+//@   property C08
+//@   requires cfgOK(config)
+//@   ensures res != nil && fresh(res) && res.state == 0 && res.failures == 0 && res.successes == 0 && res.halfOpenRequests == 0 && res.config == config
+
+//@ func (cb *CircuitBreaker) transitionToOpen
+//@   property C08
+//@   modifies cb.state, cb.successes, cb.halfOpenRequests
+//@   ensures cb.state == 1 && cb.successes == 0 && cb.halfOpenRequests == 0
+
+//@ func (cb *CircuitBreaker) transitionToHalfOpen
+//@   property C08
+//@   modifies cb.state, cb.failures, cb.successes, cb.halfOpenRequests
+//@   ensures cb.state == 2 && cb.failures == 0 && cb.successes == 0 && cb.halfOpenRequests == 0
+
+//@ func (cb *CircuitBreaker) transitionToClosed
+//@   property C08
+//@   modifies cb.state, cb.failures, cb.successes, cb.halfOpenRequests
+//@   ensures cb.state == 0 && cb.failures == 0 && cb.successes == 0 && cb.halfOpenRequests == 0
+
+//@ func (cb *CircuitBreaker) allowHalfOpen
+//@   property C08
+//@   modifies cb.halfOpenRequests
+//@   atomic-once cb.halfOpenRequests
+//@   requires cb.state == 2
+//@   ensures cb.halfOpenRequests == old(cb.halfOpenRequests) + 1
+//@   ensures res == (old(cb.halfOpenRequests) + 1 <= cb.config.HalfOpenRequests)
+
+//@ func (cb *CircuitBreaker) Allow
+//@   property C08
+//@   modifies cb.state, cb.failures, cb.successes, cb.halfOpenRequests
+//@   ensures !cb.config.Enabled ==> res == true && cb.state == old(cb.state) && cb.halfOpenRequests == old(cb.halfOpenRequests)
+//@   ensures cb.config.Enabled && old(cb.state) == 0 ==> res == true && cb.state == 0
+//@   ensures cb.config.Enabled && old(cb.state) == 1 && now - cb.lastFailureTime <= cb.config.OpenDuration ==> res == false && cb.state == 1
+//@   ensures cb.config.Enabled && old(cb.state) == 1 && old(now) - cb.lastFailureTime > cb.config.OpenDuration ==> res == true && cb.state == 2 && cb.halfOpenRequests == 1
+//@   ensures cb.config.Enabled && old(cb.state) == 2 ==> cb.state == 2 && cb.halfOpenRequests == old(cb.halfOpenRequests) + 1 && res == (old(cb.halfOpenRequests) + 1 <= cb.config.HalfOpenRequests)
+
+//@ func (cb *CircuitBreaker) RecordSuccess
+//@   property C08
+//@   modifies cb.state, cb.failures, cb.successes, cb.halfOpenRequests
+//@   ensures !cb.config.Enabled ==> cb.state == old(cb.state) && cb.failures == old(cb.failures)
+//@   ensures cb.config.Enabled && old(cb.state) == 0 ==> cb.state == 0 && cb.failures == 0
+//@   ensures cb.config.Enabled && old(cb.state) == 2 && old(cb.successes) + 1 >= cb.config.SuccessThreshold ==> cb.state == 0 && cb.failures == 0
+//@   ensures cb.config.Enabled && old(cb.state) == 2 && old(cb.successes) + 1 < cb.config.SuccessThreshold ==> cb.state == 2 && cb.successes == old(cb.successes) + 1 && cb.failures == 0
+//@   ensures cb.config.Enabled && old(cb.state) == 1 ==> cb.state == 1
+
+//@ func (cb *CircuitBreaker) RecordFailure
+//@   property C08
+//@   modifies cb.state, cb.failures, cb.successes, cb.halfOpenRequests, cb.lastFailureTime
+//@   ensures !cb.config.Enabled ==> cb.state == old(cb.state) && cb.failures == old(cb.failures)
+//@   ensures cb.config.Enabled ==> cb.lastFailureTime == now && cb.failures == old(cb.failures) + 1
+//@   ensures cb.config.Enabled && old(cb.state) == 0 && old(cb.failures) + 1 >= cb.config.FailureThreshold ==> cb.state == 1
+//@   ensures cb.config.Enabled && old(cb.state) == 0 && old(cb.failures) + 1 < cb.config.FailureThreshold ==> cb.state == 0
+//@   ensures cb.config.Enabled && old(cb.state) == 2 ==> cb.state == 1
+//@   ensures cb.config.Enabled && old(cb.state) == 1 ==> cb.state == 1
+
+//@ func (cb *CircuitBreaker) Reset
+//@   property C08
+//@   modifies cb.state, cb.failures, cb.successes, cb.halfOpenRequests
+//@   ensures cb.state == 0 && cb.failures == 0 && cb.successes == 0 && cb.halfOpenRequests == 0
+
+// With SuccessThreshold <= HalfOpenRequests every one of the SuccessThreshold probes needed to close is admitted:
+//@ lemma no_stuck_half C08: forall i int, st int, h int :: 1 <= i && i <= st && st <= h ==> i <= h
